@@ -11,8 +11,8 @@ FAMS = [IPV4, IPV6, IPV4_MC]          # families whose NLRI the neighbour side o
 RT, LT = 120, 3600
 
 # reasons: 0 tcp/io, 1 remote cease, 2 remote hard reset, 3 local cease, 4 local hard reset,
-#          5 local non-cease notification, 6 hold timer, 7 fsm error / admin shutdown
-REASON_COQ = ['RsTcp', 'RsRemoteCease', 'RsRemoteHard', 'RsLocalCease', 'RsLocalHard', 'RsLocalOther', 'RsHold', 'RsOther']
+#          5 local non-cease notification, 6 hold timer, 7 fsm error / admin shutdown, 8 remote non-cease notification
+REASON_COQ = ['RsTcp', 'RsRemoteCease', 'RsRemoteHard', 'RsLocalCease', 'RsLocalHard', 'RsLocalOther', 'RsHold', 'RsOther', 'RsRemoteOther']
 
 def gr_applies(r, nbit):
     return r == 0 or (r in (1, 3, 6) and nbit)
@@ -46,7 +46,7 @@ def hev_to_val(e):
     if t == 'up':
         # the implementation gets the two capability sets; the model the negotiated result
         lgr, rgr, lll, rll = e[4] if len(e) > 4 else default_caps(e[2], e[3])
-        g = lambda x: [] if x is None else [[list(x[0]), x[1], 1 if x[2] else 0]]
+        g = lambda x: [] if x is None else [[list(x[0]), x[1], cap_flags(x[2])]]
         l = lambda x: [] if x is None else [[list(p) for p in x]]
         hold = e[5] if len(e) > 5 else 90
         return [0, list(e[1]), g(lgr), g(rgr), l(lll), l(rll), hold]
@@ -75,6 +75,38 @@ def hev_to_coq(e):
     return '(HSetAdminDown %s)' % cbool(e[1])
 
 # ------------------------------------------------------------- capabilities behind a negotiated result
+def cap_flags(x):
+    """flags octet of a GR capability: True/False = N bit only; an int is taken as it is (0x4 N bit, 0x8 R bit)"""
+    if isinstance(x, bool):
+        return 4 if x else 0
+    return x
+
+def negotiate(lgr, rgr, lll, rll):
+    """RFC 4724 / 8538 / 9494: GR families = local list restricted to the peer's, restart time from the peer, N bit
+    only if both set it; LLGR families likewise, stale time from the peer, ours when the peer sends 0, none when 0"""
+    gr = None
+    if lgr is not None and rgr is not None:
+        fams = tuple(f for f in lgr[0] if f in rgr[0])
+        if fams:
+            gr = (fams, rgr[1], bool(cap_flags(lgr[2]) & 4 and cap_flags(rgr[2]) & 4))
+    ll = None
+    if lll is not None and rll is not None:
+        out = []
+        seen = set()
+        for f, t in lll:
+            if f in seen:          # a family named more than once counts by its first entry, on both sides
+                continue
+            seen.add(f)
+            m = [x for x in rll if x[0] == f]
+            if not m:
+                continue
+            secs = m[0][1] if m[0][1] > 0 else t
+            if secs:
+                out.append((f, secs))
+        if out:
+            ll = tuple(out)
+    return gr, ll
+
 def default_caps(gr, ll):
     return (gr, gr, ll, ll)
 
@@ -122,6 +154,7 @@ def derive_caps(rng, gr, ll):
         ro = [(f, rtimes[f]) for f in fl] + [(f, LT) for f in er]
         rng.shuffle(ro)
         lll, rll = tuple(lo), tuple(ro)
+    assert negotiate(lgr, rgr, lll, rll) == (gr, ll), (gr, ll, lgr, rgr, lll, rll)
     return (lgr, rgr, lll, rll)
 
 # ------------------------------------------------------------- known classes
@@ -136,7 +169,7 @@ def known_classes(evs):
 class Prop:
     pid = 'C10'
     props_file = 'Props/C10.v'
-    required_theorems = ['helper_mode_entry_arms_timer', 'drop_never_leaves_helper_mode', 'stale_implies_timer_or_eor', 'phase_timer_consistency', 'failed_reconnect_keeps_timer', 'no_llgr_dropped_at_llgr_start', 'no_llgr_dropped_at_llgr_only_drop', 'fresh_routes_survive_purge', 'live_session_routes_survive_purge', 'purged_by_expiry_or_eor', 'non_negotiated_families_dropped_at_once', 'non_gr_reasons_retain_nothing']
+    required_theorems = ['helper_mode_entry_arms_timer', 'drop_never_leaves_helper_mode', 'stale_implies_timer_or_eor', 'phase_timer_consistency', 'failed_reconnect_keeps_timer', 'no_llgr_dropped_at_llgr_start', 'no_llgr_dropped_at_llgr_only_drop', 'fresh_routes_survive_purge', 'live_session_routes_survive_purge', 'purged_by_expiry_or_eor', 'non_negotiated_families_dropped_at_once', 'non_gr_reasons_retain_nothing', 'eligibility_is_as_stated']
     correspondence_name = ('Model/Gr.v gr_step vs daemon/src/gr.rs GrState::process (harness/daemon/gr_hx.rs); '
                            'Model/Gr.v h_step vs apply_disconnect / process_effects / timer handlers / unregister_peer on a real '
                            'PeerContext + TableManager (harness/daemon/event_gr_hx.rs)')
@@ -173,14 +206,17 @@ class Prop:
 
     def case_to_val(self, c):
         if c['kind'] == 'gd':
-            return [2, c['reason'], 1 if c['nbit'] else 0]
+            return [2, c['rk'], c['code'], c['sub'], 1 if c['nbit'] else 0]
         if c['kind'] == 'gr':
             return [1, [grin_to_val(i) for i in c['ins']]]
         return [1, [hev_to_val(e) for e in c['evs']]]
 
     def case_to_coq(self, c):
         if c['kind'] == 'gd':
-            return 'VB (gr_applies %s %s)' % ((REASON_COQ + ['RsOther'])[c['reason']], cbool(c['nbit']))
+            r = {0: 'RsTcp', 1: 'RsTcp', 4: 'RsHold', 5: 'RsOther', 6: 'RsOther'}.get(c['rk'])
+            if r is None:
+                r = '(reason_of_notification %s %s %s)' % (cbool(c['rk'] == 3), cN(c['code']), cN(c['sub']))
+            return 'VB (gr_applies %s %s)' % (r, cbool(c['nbit']))
         if c['kind'] == 'gr':
             return 'run_gr_case %s' % clist([grin_to_coq(i) for i in c['ins']])
         return 'run_h_case %s' % clist([hev_to_coq(e) for e in c['evs']])
@@ -206,13 +242,6 @@ class Prop:
         return res
 
     # ---- generation
-    def gr_alphabet(self):
-        a, b = FAMS[0], FAMS[1]
-        return [('drop', ((a, b), RT), None), ('drop', ((a,), RT), ((a, LT),)), ('drop', ((a, b), RT), ((a, LT), (b, 7200))),
-                ('drop', None, ((a, LT), (b, LT))), ('drop', None, None),
-                ('est', (a, b)), ('est', (a,)), ('est', ()),
-                ('eor', a), ('eor', b), ('timer',), ('ltimer', a), ('ltimer', b)]
-
     def rand_history(self, rng, mode):
         """mode: 'clean' (GR-eligible, LLGR families = GR families or none), or a known-class stream"""
         F = FAMS
@@ -262,7 +291,7 @@ class Prop:
                         nbit = bool(up[2] and up[2][2])
                         r = rng.choice([0, 0, 0, 1, 3, 6]) if nbit else 0
                     else:
-                        r = rng.choice([0, 1, 2, 3, 5, 6, 7])      # 4 (local hard reset) cannot be produced on a socket
+                        r = rng.choice([0, 1, 2, 3, 5, 6, 7, 8])   # 4 (local hard reset) cannot be produced on a socket
                     if mode in ('admin', 'any') and rng.random() < 0.2:
                         evs.append(('admin', True))
                     elif mode in ('admin', 'any') and rng.random() < 0.1:
@@ -290,17 +319,176 @@ class Prop:
                 evs[k] = (e[0], e[1], e[2], e[3], caps, hold)
         return evs
 
+    # ---- enumerated classes (every run)
+    def gr_alphabet(self):
+        a, b = FAMS[0], FAMS[1]
+        return [
+            # session drops: GR / LLGR family sets in every inclusion relation, duplicates, empty lists
+            ('drop', ((a, b), RT), None),                              # GR only
+            ('drop', ((a, b), RT), ((a, LT), (b, 7200))),              # GR = LLGR
+            ('drop', ((a, b), 0), ((a, LT),)),                         # GR > LLGR, restart time 0
+            ('drop', ((a,), RT), ((a, LT), (b, LT))),                  # LLGR > GR
+            ('drop', ((a,), 4095), ((b, LT),)),                        # disjoint, largest restart time
+            ('drop', ((a, a), RT), ((b, LT), (b, 1))),                 # duplicates in both lists
+            ('drop', ((), RT), ()),                                    # both present and empty
+            ('drop', None, ((a, LT), (b, LT))),                        # LLGR only
+            ('drop', None, ()),                                        # LLGR only, empty
+            ('drop', None, None),
+            ('est', (a, b)), ('est', (a,)), ('est', (b,)), ('est', (b, b, a)), ('est', ()),
+            ('eor', a), ('eor', b), ('eor', FAMS[2]),
+            ('timer',), ('ltimer', a), ('ltimer', b), ('ltimer', FAMS[2])]
+
+    def gr_phase_prefixes(self):
+        """one input sequence per phase (and per interesting content of the phase)"""
+        a, b = FAMS[0], FAMS[1]
+        gr_ll = ('drop', ((a, b), RT), ((a, LT), (b, LT)))
+        return [
+            [],                                                        # Idle
+            [('drop', ((a, b), RT), None)],                            # PeerRestarting, no LLGR
+            [gr_ll],                                                   # PeerRestarting, LLGR
+            [('drop', ((a, b), RT), ((a, LT),))],                      # PeerRestarting, GR > LLGR
+            [('drop', ((a,), RT), ((a, LT), (b, LT)))],                # PeerRestarting, LLGR > GR
+            [gr_ll, ('timer',)],                                       # LlgrStaling {a, b}
+            [gr_ll, ('timer',), ('ltimer', a)],                        # LlgrStaling {b}
+            [('drop', ((a, b), RT), None), ('est', (a, b))],           # PeerReconnected, from GR
+            [('drop', ((a, b), RT), None), ('est', (a, b)), ('eor', a)],
+            [gr_ll, ('timer',), ('est', (a, b))],                      # PeerReconnected, from LLGR
+            [gr_ll, ('timer',), ('est', (a,))],                        # ... with a family not re-negotiated
+        ]
+
+    RELATIONS = None
+
+    def relations(self):
+        a, b = FAMS[0], FAMS[1]
+        return [('equal', (a, b), ((a, LT), (b, LT))),
+                ('gr_sup', (a, b), ((a, LT),)),
+                ('llgr_sup', (a,), ((a, LT), (b, LT))),
+                ('disjoint', (a,), ((b, LT),)),
+                ('gr_only', (a, b), None),
+                ('llgr_only', None, ((a, LT), (b, LT))),
+                ('neither', None, None)]
+
+    def tails(self, grf, ll):
+        """what happens after the drop: reconnect outcome x End-of-RIB per family x order of the timer expiries"""
+        a, b = FAMS[0], FAMS[1]
+        F = (a, b)
+        def up(g, l, nb=False):
+            gr = None if g is None else (tuple(g), RT, nb)
+            return ('up', F, gr, l, default_caps(gr, l))
+        same = up(grf, ll)
+        return [
+            ('expire_ab', [('rtimer',), ('ltimer', a), ('ltimer', b), ('rtimer',)]),
+            ('expire_ba', [('ltimer', a), ('rtimer',), ('ltimer', b), ('ltimer', a)]),
+            ('failed_connect', [('fail',), ('fail',), ('rtimer',), ('fail',), ('ltimer', a), ('ltimer', b)]),
+            ('reconnect_no_gr', [up(None, None), ('ann', a, 4, False, False), ('rtimer',), ('eor', a), ('ltimer', a), ('down', 0)]),
+            ('reconnect_gr_subset', [up((a,), None), ('ann', a, 4, False, False), ('eor', b), ('eor', a), ('rtimer',), ('down', 0), ('rtimer',)]),
+            ('reconnect_gr_other', [up((b,), ll), ('ann', b, 4, False, True), ('eor', b), ('eor', a), ('down', 0), ('rtimer',), ('ltimer', b)]),
+            ('reconnect_same_eor_ab', [same, ('ann', a, 4, False, False), ('ann', b, 0, False, False), ('eor', a), ('eor', b), ('eor', a)]),
+            ('reconnect_same_eor_ba', [same, ('ann', a, 0, True, False), ('eor', b), ('rtimer',), ('eor', a), ('down', 0), ('rtimer',), ('ltimer', a)]),
+            ('llgr_then_reconnect_subset', [('rtimer',), up((a,), None), ('ann', a, 4, False, True), ('ltimer', b), ('eor', a), ('eor', b)]),
+            ('llgr_then_reconnect_no_gr', [('rtimer',), up(None, ll), ('ltimer', a), ('ann', a, 4, False, False), ('down', 0), ('ltimer', a), ('ltimer', b)]),
+            ('llgr_partial_then_reconnect', [('rtimer',), ('ltimer', a), same, ('eor', a), ('eor', b), ('down', 0), ('rtimer',)]),
+            ('second_drop_before_eor', [same, ('ann', b, 4, False, False), ('down', 0), ('rtimer',), ('ltimer', a), ('ltimer', b)]),
+            ('force_down', [('force',), ('rtimer',), ('ltimer', a)]),
+            ('reconnect_then_force', [same, ('ann', a, 4, False, False), ('force',), ('rtimer',)]),
+        ]
+
+    def matrix_cases(self, tier):
+        """GR family set x LLGR family set (every inclusion relation) x disconnect reason x N bit / R bit x
+        what happens next: every output of GrState::process is followed by what the driver does to the real table"""
+        a, b = FAMS[0], FAMS[1]
+        F = (a, b)
+        cases = []
+        k = 0
+        for rel, grf, ll in self.relations():
+            for nb in ((False, True) if grf is not None else (False,)):
+                gr = None if grf is None else (grf, RT, nb)
+                # the R bit (0x8) of either side must make no difference
+                rbit = 8 if k % 2 else 0
+                k += 1
+                caps = default_caps(gr, ll)
+                if gr is not None:
+                    fl = cap_flags(nb)
+                    caps = ((grf, RT, fl | rbit), (grf, RT, fl | (8 - rbit)), ll, ll)
+                head = [('up', F, gr, ll, caps),
+                        ('ann', a, 0, False, False), ('ann', a, 1, True, False),     # two paths of one prefix, one NO_LLGR
+                        ('ann', b, 0, False, False), ('ann', b, 2, True, True), ('eor', a)]
+                reasons = [0, 1, 2, 3, 5, 7, 8]
+                for r in reasons:
+                    for tname, tail in self.tails(grf, ll):
+                        cases.append(dict(kind='h', cls=['matrix', 'rel_' + rel, 'reason_%d' % r, 'nbit_%d' % nb,
+                                                          'rbit_%d' % rbit, 'tail_' + tname],
+                                          evs=self.with_hold(head + [('down', r)] + tail, False)))
+                # hold-timer expiry is really waited for (3 s): a few on every run, the whole row in the thorough tier
+                hold_tails = [t for t in self.tails(grf, ll) if t[0] in ('expire_ab', 'reconnect_same_eor_ab')]
+                if tier == 'quick' and not (rel == 'equal' or (rel == 'gr_sup' and nb)):
+                    hold_tails = []
+                for tname, tail in hold_tails[:(1 if tier == 'quick' else 2)]:
+                    cases.append(dict(kind='h', cls=['matrix', 'rel_' + rel, 'reason_6', 'nbit_%d' % nb, 'tail_' + tname],
+                                      evs=self.with_hold(head + [('down', 6)] + tail, True)))
+        # admin-down peer: nothing is retained whatever was negotiated, connections are refused
+        for rel, grf, ll in self.relations():
+            gr = None if grf is None else (grf, RT, True)
+            cases.append(dict(kind='h', cls=['matrix', 'admin_down', 'rel_' + rel],
+                              evs=self.with_hold([('up', F, gr, ll, default_caps(gr, ll)), ('ann', a, 0, False, False),
+                                                  ('ann', b, 0, False, False), ('admin', True), ('down', 0), ('rtimer',),
+                                                  ('up', F, gr, ll, default_caps(gr, ll)), ('fail',), ('admin', False),
+                                                  ('up', F, gr, ll, default_caps(gr, ll)), ('ann', a, 0, False, False), ('down', 0)], False)))
+        return cases
+
+    def negotiation_cases(self):
+        """boundary values of what is negotiated: restart time 0 / 1 / 4095, LLGR stale time 0 on either or both sides,
+        1, 2^24-1, every N bit / R bit combination, empty and duplicate family lists, different orders, families
+        outside the session"""
+        a, b, c3 = FAMS
+        F = (a, b)
+        cases = []
+        def one(tag, lgr, rgr, lll, rll, fams=F, only_up=False):
+            gr, ll = negotiate(lgr, rgr, lll, rll)
+            evs = [('up', fams, gr, ll, (lgr, rgr, lll, rll)), ('ann', a, 0, False, False), ('ann', b, 0, True, False),
+                   ('down', 1), ('down', 0), ('rtimer',), ('ltimer', a), ('ltimer', b)]
+            if only_up or (gr and gr[1] < 60) or (ll and any(t < 60 for _, t in ll)):
+                # a restart time of 0 / 1 s would really expire while the case runs: only the negotiation is observed
+                evs = evs[:3] + [('eor', a)]
+            cases.append(dict(kind='h', cls=['negotiation', 'neg_' + tag], evs=self.with_hold(evs, False)))
+        for rt in (0, 1, 4095):
+            one('restart_%d' % rt, ((a, b), 77, 4), ((a, b), rt, 4), None, None, only_up=(rt < 60))
+        for lf in (0, 4, 8, 12):
+            for rf in (0, 4, 8, 12):
+                one('flags_%d_%d' % (lf, rf), ((a, b), RT, lf), ((a, b), RT, rf), None, None)
+        for lt, rtm in ((0, 0), (5, 0), (0, 7), (1, 1), (16777215, 16777215), (9, 16777215), (16777215, 0)):
+            one('llgr_time_%d_%d' % (lt, rtm), ((a,), RT, 4), ((a,), RT, 4), ((a, lt), (b, LT)), ((a, rtm), (b, LT)))
+        one('gr_empty_local', ((), RT, 4), ((a,), RT, 4), None, None)
+        one('gr_empty_remote', ((a,), RT, 4), ((), RT, 4), None, None)
+        one('gr_dup', ((a, a, b), RT, 4), ((b, a, a), RT, 4), None, None)
+        one('gr_order', ((b, a), RT, 4), ((a, b), RT, 4), ((b, LT), (a, LT)), ((a, LT), (b, LT)))
+        one('gr_local_only', ((a,), RT, 4), None, ((a, LT),), None)
+        one('gr_remote_only', None, ((a,), RT, 4), None, ((a, LT),))
+        one('llgr_empty', ((a,), RT, 4), ((a,), RT, 4), (), ((a, LT),))
+        one('llgr_dup', ((a,), RT, 4), ((a,), RT, 4), ((a, LT), (a, 5)), ((a, 6), (a, 0)))
+        one('llgr_disjoint', ((a,), RT, 4), ((a,), RT, 4), ((a, LT),), ((b, LT),))
+        one('family_outside_session', ((a, b, c3), RT, 4), ((c3, a), RT, 4), ((c3, LT), (a, LT)), ((a, LT), (c3, LT)), fams=(a,))
+        one('single_family_session', ((b,), RT, 4), ((b,), RT, 4), ((b, LT),), ((b, LT),), fams=(b,))
+        return cases
+
     def gen_cases(self, rng, tier):
         cases = []
         al = self.gr_alphabet()
+        # the pure machine: every state x every input, and every input sequence up to depth d from Idle
+        for pre in self.gr_phase_prefixes():
+            for seq in itertools.product(al, repeat=2):
+                cases.append(dict(kind='gr', ins=list(pre) + list(seq)))
         d = 3 if tier == 'quick' else 4
         for seq in itertools.product(al, repeat=d):
             cases.append(dict(kind='gr', ins=list(seq)))
         for _ in range(300 if tier == 'quick' else 5000):
             cases.append(dict(kind='gr', ins=[rng.choice(al) for _ in range(rng.randint(4, 14))]))
-        nh = 1200 if tier == 'quick' else 12000
+        # the glue: enumerated classes first
+        cases += self.matrix_cases(tier)
+        cases += self.negotiation_cases()
+        nh = 800 if tier == 'quick' else 12000
         modes = ['clean'] * 6 + ['nogr', 'any', 'any', 'fail', 'force', 'comm', 'admin', 'mixed', 'offfam']
-        hold_budget = 10 if tier == 'quick' else 60
+        hold_budget = 6 if tier == 'quick' else 60
         for _ in range(nh):
             evs = self.rand_history(rng, rng.choice(modes))
             n6 = len([1 for e in evs if e[0] == 'down' and e[1] == 6])
@@ -308,11 +496,15 @@ class Prop:
             if allow:
                 hold_budget -= n6
             cases.append(dict(kind='h', evs=self.with_hold(evs, allow)))
-        # gr_on_disconnect alone, every reason class (including the local hard reset, which no
-        # socket event produces) with and without the N bit
-        for r in range(9):
-            for nb in (False, True):
-                cases.append(dict(kind='gd', reason=r, nbit=nb))
+        # gr_on_disconnect alone: every kind of reason, every NOTIFICATION code 0..8 x subcode 0..11, 255 in both
+        # directions (the local Hard Reset, which no socket event produces, included), with and without the N bit
+        for nb in (False, True):
+            for rk in (0, 1, 4, 5, 6):
+                cases.append(dict(kind='gd', rk=rk, code=0, sub=0, nbit=nb))
+            for rk in (2, 3):
+                for code in range(0, 9):
+                    for sub in list(range(0, 12)) + [255]:
+                        cases.append(dict(kind='gd', rk=rk, code=code, sub=sub, nbit=nb))
         return cases
 
     # ---- running
@@ -350,8 +542,12 @@ class Prop:
         if c['kind'] == 'gd':
             # RFC 4724 / 8538: TCP failure always; NOTIFICATION (not Hard Reset, Cease only when sent by us)
             # and hold-timer expiry only with the N bit; never for FSM errors and admin shutdown
-            want = c['reason'] == 0 or (c['reason'] in (1, 3, 6) and c['nbit'])
-            return None if bool(obs) == want else 'gr_on_disconnect(reason %d, N bit %s) = %s' % (c['reason'], c['nbit'], obs)
+            want = c['rk'] in (0, 1) or (c['rk'] == 4 and c['nbit']) or \
+                (c['rk'] in (2, 3) and c['nbit'] and c['code'] == 6 and c['sub'] != 9)
+            return None if bool(obs) == want else \
+                'gr_on_disconnect(%s, code %d, subcode %d, N bit %s) = %s: helper mode for a reason the property excludes, or refused for one it allows' % (
+                    ['no reason', 'IoError', 'NOTIFICATION received', 'NOTIFICATION sent', 'hold timer', 'FSM error', 'admin shutdown'][c['rk']],
+                    c['code'], c['sub'], c['nbit'], obs)
         if c['kind'] == 'gr':
             return oracle_gr(c, obs)
         return oracle_h(c, obs)
@@ -376,11 +572,13 @@ class Prop:
 
     def classify(self, c, obs):
         if c['kind'] == 'gd':
-            return ['gr_on_disconnect']
+            return ['gr_on_disconnect', 'gd_kind_%d' % c['rk']] + (['gd_code_%d' % c['code'], 'gd_sub_%d' % c['sub']] if c['rk'] in (2, 3) else [])
         if c['kind'] == 'gr':
             return ['gr_machine'] + ['gr_' + i[0] for i in c['ins']]
         ks = known_classes(c['evs'])
         tags = ['glue', 'glue_clean' if not ks else 'glue_in_known_class'] + ['class_' + k for k in sorted(ks)]
+        tags += list(c.get('cls', ['random_history']))
+        tags += ['down_reason_%d' % e[1] for e in c['evs'] if e[0] == 'down']
         return tags + ['ev_' + e[0] for e in c['evs']]
 
 
@@ -428,7 +626,7 @@ def oracle_h(c, obs):
             helper_fams = set(awaiting)
             fresh = {}
         elif t == 'ann' and sess is not None and e[1] in sess[1]:
-            fresh[(e[1], e[2])] = gen
+            fresh[(e[1], e[2])] = (gen, e[3])
         elif t == 'eor' and sess is not None and sess[2]:
             awaiting.discard(e[1]); helper_fams.discard(e[1])
         elif t == 'down' and sess is not None:
@@ -440,7 +638,15 @@ def oracle_h(c, obs):
                 helper_fams = (grf | (llf if (sess[2] is None or True) else set()))
             else:
                 helper_fams = set()
-            # every family outside the negotiated ones is removed at once; a drop that is not eligible retains nothing
+            # the routes of the negotiated families are kept (and marked stale) when helper mode applies ...
+            have_now = set((r[0], r[1]) for r in routes)
+            for (ff, rid), (g0, no_llgr) in fresh.items():
+                if ff in helper_fams and (ff, rid) not in have_now and not (sess[2] is None and no_llgr):
+                    return 'step %d: route (%d, %d) of a negotiated family was not kept when the session dropped (reason %d)' % (k, ff, rid, e[1])
+            for r in routes:
+                if r[0] in helper_fams and not r[3]:
+                    return 'step %d: kept route (%d, %d) is not marked stale' % (k, r[0], r[1])
+            # ... every family outside the negotiated ones is removed at once; a drop that is not eligible retains nothing
             for r in routes:
                 if r[0] not in helper_fams:
                     return 'step %d: route of family %d retained after a drop (reason %d) that does not allow it' % (k, r[0], e[1])
